@@ -449,8 +449,39 @@ class C01(Prop):
     assumptions = ["X25519 commutativity (dh_comm) is a hypothesis of the key-mode round-trip theorem",
                    "AEAD/hash laws proved for the Gallina RFC instance"]
 
+    def sequences(self, ctx):
+        """several encryptions in ONE library process: different senders to one recipient, one sender to different
+        recipients, a key writing to itself — state carried from one operation to the next must not matter"""
+        (a, A), (b, B), (c, C), (e, E), (e2, E2) = keypairs(ctx, 5)
+        plan = [(a, A, B), (c, C, B), (b, B, B), (a, A, C), (a, A, B), (c, C, A)]
+        encs = []
+        for i, (s, spk, rpk) in enumerate(plan):
+            P = ctx.rbytes(20 + i)
+            ee, eepk = (e, E) if i % 2 == 0 else (e2, E2)
+            encs.append((P, Case("key_enc", s=s, spk=spk, r=rpk, e=ee, epk=eepk, pk=ctx.rbytes(32), data=P,
+                                 oracle=ok_only("key encryption succeeds"), tags=["sequence", "enc"])))
+        vlib.run_impl(ctx.bin, [c_ for _, c_ in encs])
+        priv = {A: a, B: b, C: c}
+        out = []
+        for (P, c_) in encs:
+            out.append(c_)
+        for (P, c_) in encs:
+            if c_.result["code"] != 0:
+                continue
+            rpk = c_.a["r"]
+            spk = c_.a["spk"]
+
+            def orc(res, P=P, spk=spk):
+                if res["code"] != 0 or res["out"] != P:
+                    return ("every file of a sequence of encryptions decrypts to its plaintext", res["outcome"])
+                if res["extra"] != spk:
+                    return ("and names its own sender", "sender=" + res["extra"].hex())
+                return None
+            out.append(Case("key_dec", r=priv[rpk], rpk=rpk, data=c_.result["out"], oracle=orc, tags=["sequence", "dec"]))
+        return out
+
     def cases(self, ctx):
-        return roundtrip_chunk_cases(ctx, ctx.thorough()) + api_roundtrip_cases(ctx, ctx.thorough(), "key")
+        return self.sequences(ctx) + roundtrip_chunk_cases(ctx, ctx.thorough()) + api_roundtrip_cases(ctx, ctx.thorough(), "key")
 
     def search_cases(self, ctx):
         c2 = Ctx(ctx.pid, "thorough", ctx.seed + 7)
